@@ -42,7 +42,7 @@ def run(ck):
             fails.append(("static-state audit (%s build)" % backend, "nm -C %s" % os.path.basename(exe), "writable static storage outside the modelled immutable set: %s" % b))
         for T, R in ((2, 3), (8, 3), (16, 2)) + (() if q else ((16, 20), (4, 50))):
             rc, o, e = vf.run_io([exe, str(T), str(R)], "", timeout=600); runs += 1
-            if rc != 0 or "CHANGED" in o or any(x.split("=")[1].split("/")[0] != x.split("/")[1] for x in o.split() if x.startswith("ok=")):
+            if rc != 0 or "CHANGED" in o or "CORRUPTED" in o or any(x.split("=")[1].split("/")[0] != x.split("/")[1] for x in o.split() if x.startswith("ok=")):
                 fails.append(("threads vs sequential (%s build)" % backend, "h_conc %d %d" % (T, R), (o.strip() + " " + e[-300:])[:400]))
     tx, out = build(["-fsanitize=thread", "-g"], "h_conc_tsan")
     if not tx:
